@@ -187,6 +187,8 @@ static UBASE_UNUSED void                                                    \
         return;                                                             \
     struct upump_blocker *blocker =                                         \
         upump_blocker_alloc(*upump_p, STRUCTURE##_block_input_cb, upipe);   \
+    if (unlikely(blocker == NULL))                                          \
+        return;                                                             \
     ulist_add(&s->BLOCKERS, upump_blocker_to_uchain(blocker));              \
 }                                                                           \
 /** @internal @This unblocks all source pumps.                              \
